@@ -50,8 +50,12 @@ FactorGuardOK(child) ==
 DefOf(a, c)  == defs[a][<<Blk(c, 1), Blk(c, 2), PosOf(c[3])>>]
 ShapeOf(a, c) == <<ses.chain[1].rows[Blk(c, 1) + 1], ses.chain[a].cols[Blk(c, 2) + 1]>>
 ObsMat(tag, v, a, c) == AsMat([tag |-> tag, v |-> v], ShapeOf(a, c)[1], ShapeOf(a, c)[2])
+\* a user-supplied element product  op(x, y) = opscale * (x y)  (opscale = 1: the default matmul): the
+\* product of a factors carries opscale^(a-1) -- every binary step must use the caller's operator
 ProdValueOK(c, tag, v) ==
-  LET a == ProdNo(c[1]) IN IF a = 0 THEN TRUE ELSE ObsMat(tag, v, a, c) = DefOf(a, c)
+  LET a == ProdNo(c[1]) IN
+  IF a = 0 THEN TRUE
+  ELSE ObsMat(tag, v, a, c) = MScale(FInt(ses.opscale ^ (a - 1)), DefOf(a, c))
 RetValuesOK(e) == \A x \in SeqSet(e.vals) : ProdValueOK(CellOf(x), x.tag, x.v)
 
 CBegin == TBegin /\ FactorGuardOK(CellOf(Ev)) /\ UNCHANGED defs
